@@ -18,4 +18,11 @@ rate: `q₁·exp(−h·(t−t₁))`, `h = log(q₁/q₂)/(t₂−t₁)`. -/
 noncomputable def flatHazardQ (t1 q1 t2 q2 t : ℝ) : ℝ :=
   q1 * Real.exp (-(Real.log (q1 / q2) / (t2 - t1)) * (t - t1))
 
+/-- mean of the integrated Ornstein–Uhlenbeck rate `∫₀ᵗ r_s ds` (`dr = a(b−r)dt + σ dW`): `b·t + (r₀−b)·(1−e^{−at})/a` -/
+noncomputable def vasIntegratedMean (r0 a b t : ℝ) : ℝ := b * t + (r0 - b) * ((1 - Real.exp (-a * t)) / a)
+
+/-- its variance: `σ²/a²·(t − 2(1−e^{−at})/a + (1−e^{−2at})/(2a))` -/
+noncomputable def vasIntegratedVar (a sigma t : ℝ) : ℝ :=
+  sigma ^ 2 / a ^ 2 * (t - 2 * ((1 - Real.exp (-a * t)) / a) + (1 - Real.exp (-2 * a * t)) / (2 * a))
+
 end FinVerif.Spec.C19
